@@ -605,6 +605,9 @@ func (x *Exec) loopEnter(st *State, fr *Frame, h, prev *ssa.BasicBlock, ord int,
 	entry := st.Clone()
 	env := x.invEnv(st, fr, h, entry)
 	for i, c := range ls.Invariants {
+		if c.Only != "" && c.Only != x.beh.Name {
+			continue
+		}
 		t, err := env.evalBool(c.E)
 		if err != nil {
 			x.fail(fmt.Sprintf("%s invariant %d: %v", lname, i, err))
@@ -632,6 +635,9 @@ func (x *Exec) loopEnter(st *State, fr *Frame, h, prev *ssa.BasicBlock, ord int,
 	}
 	henv := x.invEnv(hst, hfr, h, entry)
 	for _, c := range ls.Invariants {
+		if c.Only != "" && c.Only != x.beh.Name {
+			continue
+		}
 		t, err := henv.evalBool(c.E)
 		if err != nil {
 			continue
@@ -659,6 +665,9 @@ func (x *Exec) loopBackEdge(st *State, fr *Frame, h, prev *ssa.BasicBlock, lc *l
 	x.bindPhis(st, fr, h, prev)
 	env := x.invEnv(st, fr, h, lc.entry)
 	for i, c := range lc.spec.Invariants {
+		if c.Only != "" && c.Only != x.beh.Name {
+			continue
+		}
 		t, err := env.evalBool(c.E)
 		if err != nil {
 			x.fail(fmt.Sprintf("%s invariant %d: %v", lc.name, i, err))
